@@ -166,6 +166,9 @@ def gen_doc(rng):
                 stmt = tmpl.format(n=name)
             else:
                 tmpl, lab = rng.choice(USE_FORMS)
+                if name in local_bound and local_bound[name][0] == "strong" and rng.random() < 0.5:
+                    # a local bound earlier, used, and bound again afterwards
+                    tmpl, lab = rng.choice([("x = {n}.a\n{n} = 5", "must"), ("call({n})\nfor {n} in range(2):\n    pass", "must")])
                 if is_async and rng.random() < 0.1:
                     tmpl, lab = "await {n}", "must"
                 stmt = rng.choice(BLOCK_FORMS).format(stmt=tmpl.format(n=name)) if rng.random() < 0.4 else tmpl.format(n=name)
@@ -197,6 +200,26 @@ def gen_doc(rng):
                 break
         g.emit(indent("pass", bi))
         g.emit("")
+    return g
+
+
+def directed_doc(rng):
+    """a local bound before its use and bound AGAIN after it (both uses are of the local, never of the fixture)"""
+    g = Gen(rng)
+    g.emit("import pytest")
+    g.emit("")
+    fline = g.line_no()
+    g.emit("def test_directed(fb):")
+    g.funcs.append({"name": "test_directed", "line0": fline, "shape": "single", "kind": "test", "declared": ["fb"], "simple": True})
+    g.emit("    fa = 1")
+    g.add_stmt("call(fa)", "fa", "never", "test_directed", 4)
+    g.emit("    for fa in range(2):\n        pass")
+    g.emit("    with ctx() as settings:\n        pass")
+    g.add_stmt("call(settings)", "settings", "never", "test_directed", 4)
+    g.emit("    settings = 2")
+    g.add_stmt("x = fc.a", "fc", "must", "test_directed", 4)
+    g.emit("    pass")
+    g.emit("")
     return g
 
 
@@ -325,7 +348,7 @@ def run(ctx):
                 srv.did_open(os.path.join(root, which), conf if i == 0 else sib)
                 srv.wait_diagnostics(os.path.join(root, which), before, timeout=10)
                 ctx.nontrivial(("same_name_in_sibling_conftest_registered", "first" if i == 0 else "last"))
-            g = gen_doc(ctx.rng)
+            g = directed_doc(ctx.rng) if i == 1 else gen_doc(ctx.rng)
             text = "\n".join(g.lines) + "\n"
             try:
                 compile(text, "<doc>", "exec", dont_inherit=True)
